@@ -24,7 +24,8 @@ func init() {
 			// force namespace directives more often than the default third
 			for _, L := range t.Layers {
 				if L.NS == "" && r.Intn(2) == 0 {
-					L.NS = pickS(r, []string{"ns1", "prod", "stage"})
+					// a directive may name the namespace literally called `default`: it is a namespace like any other (seed C09i)
+					L.NS = pickS(r, []string{"ns1", "prod", "stage", "default"})
 					L.Kust["namespace"] = L.NS
 				}
 			}
@@ -144,7 +145,7 @@ func c09SharedNames(o *oracleRun, r *rand.Rand, cs int64) {
 	dep := "apiVersion: apps/v1\nkind: Deployment\nmetadata:\n  name: d\nspec:\n  template:\n    spec:\n      serviceAccountName: sa\n      containers:\n      - name: c\n        image: i\n"
 	files := map[string]string{}
 	w := func(p, c string) { files[p] = c; fs.WriteFile(p, []byte(c)) }
-	scenario := r.Intn(2)
+	scenario := r.Intn(3)
 	top := "/w/wrap"
 	// expected: binding name -> namespace its subject must name
 	want := map[string]string{}
@@ -163,6 +164,18 @@ func c09SharedNames(o *oracleRun, r *rand.Rand, cs int64) {
 		w("/w/ovq/kustomization.yaml", "resources:\n- ../base\nnamespace: "+nsQ+"\n"+pre())
 		w("/w/wrap/kustomization.yaml", "resources:\n- ../ovp\n- ../ovq\n")
 		want["@p"], want["@q"] = nsP, nsQ
+	} else if scenario == 2 {
+		// account and binding with a PRE-SET namespace, the subject naming it; the outermost directive moves both — into a
+		// namespace that may literally be called `default` (a namespace like any other: seed C09i)
+		pre := pickS(r, []string{"team-a", "ns1"})
+		target := pickS(r, []string{"default", "default", "prod"})
+		saP := "apiVersion: v1\nkind: ServiceAccount\nmetadata:\n  name: sa\n  namespace: " + pre + "\n"
+		rbP := "apiVersion: rbac.authorization.k8s.io/v1\nkind: " + pickS(r, []string{"RoleBinding", "ClusterRoleBinding"}) + "\nmetadata:\n  name: rb-pre\n  namespace: " + pre +
+			"\nroleRef:\n  apiGroup: rbac.authorization.k8s.io\n  kind: Role\n  name: r\nsubjects:\n- kind: ServiceAccount\n  name: sa\n  namespace: " + pre + "\n"
+		w("/w/base/kustomization.yaml", "resources:\n- all.yaml\n")
+		w("/w/base/all.yaml", saP+"---\n"+rbP)
+		w("/w/wrap/kustomization.yaml", "resources:\n- ../base\nnamespace: "+target+"\n")
+		want["rb-pre"] = target
 	} else {
 		// a base that moves its account, and an upper layer (no directive) with a same-named account and binding of its own
 		nsA := pickS(r, []string{"a", "prod"})
@@ -173,7 +186,7 @@ func c09SharedNames(o *oracleRun, r *rand.Rand, cs int64) {
 		want["rb-base"], want["rb-own"] = nsA, "default"
 	}
 	out, err, pnc := safeBuild(func() (string, error) { return runBuild(fs, top, nil) })
-	in := map[string]interface{}{"scenario": []string{"one-base-two-overlays", "upper-layer-own-account"}[scenario], "files": files}
+	in := map[string]interface{}{"scenario": []string{"one-base-two-overlays", "upper-layer-own-account", "preset-namespace-moved"}[scenario], "files": files}
 	if pnc != nil {
 		o.note("shared-names-panic", in)
 		return
@@ -187,7 +200,7 @@ func c09SharedNames(o *oracleRun, r *rand.Rand, cs int64) {
 	o.note("shared-names-ok", in)
 	docs, _ := parseDocs(out)
 	for _, d := range docs {
-		if d["kind"] != "RoleBinding" {
+		if d["kind"] != "RoleBinding" && d["kind"] != "ClusterRoleBinding" {
 			continue
 		}
 		md, _ := d["metadata"].(map[string]interface{})
